@@ -522,6 +522,19 @@ async fn history(ctx: &mut Ctx, _case: u64, rng: &mut Rng, w: &mut World, ns_sec
     for i in 0..n {
         let on = Some(i) != unsynced;
         w.syncing.push(on);
+        if !on && rng.chance(1, 2) {
+            // the document is not even known to this node: starting to sync it must fail, and the
+            // failed attempt must not make the node treat it as being synced
+            let (tx, rx) = oneshot::channel();
+            let _ = w.nodes[i].actor.verif_on_actor_message(ToLiveActor::StartSync { namespace: ns, peers: vec![], reply: tx }).await;
+            let _ = w.nodes[i].actor.verif_take_dials();
+            ctx.count("failed_start_sync_attempts", 1);
+            if let Ok(Ok(())) = rx.await {
+                return Err(("start-sync-of-unknown-document-succeeded".into(), json!({"node": i})));
+            }
+            w.trace.push(format!("0: n{i} start_sync of a document it does not have -> refused"));
+            continue;
+        }
         let _ = w.nodes[i].sync.import_namespace(Capability::Write(ns_secret.clone())).await;
         if on {
             let (tx, rx) = oneshot::channel();
